@@ -49,9 +49,11 @@ Proof.
   rewrite Hn2 in CA, SA. rewrite CA, SA, Chs, Shs, Chd, Shd. repeat split; field; lra.
 Qed.
 
+
 Ltac toRR := cbn [StarRing.K StarRing.k0 StarRing.k1 StarRing.kadd StarRing.kmul StarRing.ksub StarRing.kopp RRing] in *.
-Ltac zsign := repeat match goal with |- context [IZR ?z] => lazymatch z with Z0 => fail | Zpos _ => fail | Zneg _ => fail
-                                     | _ => let z' := eval vm_compute in z in change z with z' end end.
+Ltac psign := repeat match goal with |- context [perm_sign ?a ?b ?c] =>
+  let v := eval vm_compute in ((Z.of_nat a - Z.of_nat b) * (Z.of_nat b - Z.of_nat c) * (Z.of_nat c - Z.of_nat a) / 2)%Z in
+  replace (perm_sign a b c) with (IZR v) by reflexivity end.
 Ltac halves := repeat match goal with |- context [2 * ?x / 2] => replace (2 * x / 2) with x by field end.
 
 (* extrinsic proper Euler sequence (q, r, q): E_q(2y) E_r(2A) E_q(2x), with s the third axis and sign the parity of (q,r,s) *)
@@ -61,9 +63,9 @@ Lemma sym_product (q r : nat) (x A y : R) : (q < 3)%nat -> (r < 3)%nat -> q <> r
              (perm_sign q r (3 - q - r) * (sin A * sin (y - x))).
 Proof.
   intros Hq Hr Hqr.
-  destruct q as [|[|[|q]]], r as [|[|[|r]]]; try lia; clear Hq Hr Hqr;
-    unfold from_euler, from_euler_sc, half_sc, of_comps, perm_sign; cbn [map from_euler_acc Nat.sub set_comp elementary_sc];
-    halves; rewrite cos_plus, sin_plus, cos_minus, sin_minus; zsign; unf; toRR; pair_split; ring.
+  destruct q as [|[|[|q]]], r as [|[|[|r]]]; try lia; clear Hq Hr Hqr; cbn [Nat.sub]; psign;
+    unfold from_euler, from_euler_sc, half_sc, of_comps; cbn [map from_euler_acc set_comp elementary_sc];
+    halves; rewrite cos_plus, sin_plus, cos_minus, sin_minus; unf; toRR; pair_split; ring.
 Qed.
 
 (* extrinsic Tait-Bryan sequence (q, r, s): E_s(sign 2y) E_r(2A - pi/2) E_q(2x) *)
@@ -80,11 +82,125 @@ Proof.
   assert (HA : (2 * A - PI / 2) / 2 = A - PI / 4) by field.
   assert (Hc : cos (A - PI / 4) = (cos A + sin A) / sqrt 2) by (rewrite cos_minus, cos_PI4, sin_PI4; field; assumption).
   assert (Hs' : sin (A - PI / 4) = (sin A - cos A) / sqrt 2) by (rewrite sin_minus, cos_PI4, sin_PI4; field; assumption).
-  destruct q as [|[|[|q]]], r as [|[|[|r]]], s as [|[|[|s]]]; try lia; clear Hq Hr Hs Hqr Hrs Hqs;
-    unfold from_euler, from_euler_sc, half_sc, of_comps, perm_sign; cbn [map from_euler_acc set_comp elementary_sc];
-    rewrite HA, Hc, Hs'; zsign;
+  destruct q as [|[|[|q]]], r as [|[|[|r]]], s as [|[|[|s]]]; try lia; clear Hq Hr Hs Hqr Hrs Hqs; psign;
+    unfold from_euler, from_euler_sc, half_sc, of_comps; cbn [map from_euler_acc set_comp elementary_sc];
+    rewrite HA, Hc, Hs';
     try replace (2 * y * 1 / 2) with y by field; try (replace (2 * y * -1 / 2) with (- y) by field; rewrite sin_neg, cos_neg);
     replace (2 * x / 2) with x by field;
-    rewrite cos_plus, sin_plus, cos_minus, sin_minus; unf; toRR; pair_split; field_simplify_eq; try assumption;
-    try (rewrite <- ?H2; ring).
+    rewrite cos_plus, sin_plus, cos_minus, sin_minus; unf; toRR;
+    generalize (sqrt 2) H2 H20; intros t Ht Ht0; assert (Ht2 : t ^ 2 = 2) by (simpl; lra);
+    generalize (cos A) (sin A) (cos x) (sin x) (cos y) (sin y); intros cA sA cx sx cy sy;
+    pair_split; (field_simplify_eq; [|assumption]); rewrite ?Ht2; ring.
+Qed.
+
+(* ---- the regular case of _quaternion_to_euler ---- *)
+Lemma ext_core (quat : quatR) (q r s0 : nat) : (q < 3)%nat -> (r < 3)%nat -> (s0 < 3)%nat -> q <> r -> r <> s0 ->
+  qnorm2 RRing quat = 1 -> abcd_regular quat q r s0 ->
+  let '(e0, e1, e2) := euler_core quat q r s0 in from_euler false [q; r; s0] [e0; e1; e2] = quat.
+Proof.
+  intros Hq Hr Hs Hqr Hrs Hn. dquat quat.
+  assert (Hn' : k * k + k0 * k0 + k1 * k1 + k2 * k2 = 1) by (unf; toRR; lra). clear Hn.
+  destruct q as [|[|[|q]]], r as [|[|[|r]]], s0 as [|[|[|s0]]]; try lia; clear Hq Hr Hs Hqr Hrs;
+    unfold abcd_regular, euler_core, euler_abcd, abcd_sym, abcd_asym; cbn [Nat.eqb Nat.sub nth_comp q0 q1 q2 q3 fst snd]; toRR; psign; cbv beta iota zeta.
+  all: intros [Hab Hcd].
+  all: assert (H2 : sqrt 2 * sqrt 2 = 2) by (apply sqrt_sqrt; lra).
+  all: assert (H2p : 0 < sqrt 2) by (apply sqrt_lt_R0; lra).
+  all: match goal with |- context [atan2 (hypot ?c ?d) (hypot ?a ?b)] =>
+      first [ assert (Hsum : a * a + b * b + c * c + d * d = 1 * 1) by nra;
+              pose proof (bv_polar a b c d 1 ltac:(lra) Hsum Hab Hcd) as P
+            | assert (Hsum : a * a + b * b + c * c + d * d = sqrt 2 * sqrt 2) by nra;
+              pose proof (bv_polar a b c d (sqrt 2) H2p Hsum Hab Hcd) as P ];
+      cbv zeta in P;
+      set (A := atan2 (hypot c d) (hypot a b)) in *; set (hs := atan2 b a) in *; set (hd := atan2 d c) in * end.
+  all: destruct P as (Ea & Eb & Ec & Ed).
+  all: replace (hs - hd) with (2 * ((hs - hd) / 2)) by field.
+  all: first [ replace (hs + hd) with (2 * ((hs + hd) / 2)) by field; rewrite sym_product by lia
+             | match goal with |- from_euler false [?q; ?r; ?s] [_; _; ?e2] = _ =>
+                 replace e2 with (2 * ((hs + hd) / 2) * perm_sign q r s) by (psign; field) end;
+               rewrite asym_product by lia; cbv zeta ].
+  all: replace ((hs - hd) / 2 + (hs + hd) / 2) with hs by field; replace ((hs + hd) / 2 - (hs - hd) / 2) with hd by field.
+  all: cbn [Nat.sub]; psign; unfold of_comps; cbn [set_comp]; unf; toRR; pair_split; lra.
+Qed.
+
+Lemma elem_matrix_wrap (a : nat) (t : R) : elem_matrix a (wrap_angle t) = elem_matrix a t.
+Proof.
+  assert (P : forall x, cos (x + 2 * PI) = cos x /\ sin (x + 2 * PI) = sin x)
+    by (intros x; rewrite cos_plus, sin_plus, cos_2PI, sin_2PI; split; ring).
+  assert (M : forall x, cos (x - 2 * PI) = cos x /\ sin (x - 2 * PI) = sin x)
+    by (intros x; rewrite cos_minus, sin_minus, cos_2PI, sin_2PI; split; ring).
+  unfold wrap_angle. destruct (Rlt_dec t (- PI)); [destruct (Rlt_dec PI (t + 2 * PI)) | destruct (Rlt_dec PI t)];
+    unfold elem_matrix; destruct a as [|[|a]];
+    rewrite ?(proj1 (M (t + 2 * PI))), ?(proj2 (M (t + 2 * PI))), ?(proj1 (P t)), ?(proj2 (P t)), ?(proj1 (M t)), ?(proj2 (M t)); reflexivity.
+Qed.
+Lemma from_euler_wrap (i : bool) (a b c : nat) (t0 t1 t2 : R) :
+  qmat RRing (from_euler i [a; b; c] [wrap_angle t0; wrap_angle t1; wrap_angle t2]) = qmat RRing (from_euler i [a; b; c] [t0; t1; t2]).
+Proof.
+  destruct (from_euler_product a b c t0 t1 t2) as [H1 H2].
+  destruct (from_euler_product a b c (wrap_angle t0) (wrap_angle t1) (wrap_angle t2)) as [W1 W2].
+  destruct i; [rewrite W1, H1 | rewrite W2, H2]; now rewrite !elem_matrix_wrap.
+Qed.
+(* intrinsic (a,b,c) with angles (t0,t1,t2) = extrinsic (c,b,a) with angles (t2,t1,t0) *)
+Lemma from_euler_intrinsic_reverse (a b c : nat) (t0 t1 t2 : R) :
+  from_euler true [a; b; c] [t0; t1; t2] = from_euler false [c; b; a] [t2; t1; t0].
+Proof. unfold from_euler, from_euler_sc, half_sc. cbn [map from_euler_acc]. apply qmul_assoc. Qed.
+
+Lemma gimbal_eps_pos : 0 < gimbal_eps.
+Proof. unfold gimbal_eps. apply Rinv_0_lt_compat. lra. Qed.
+Lemma regular_nonzero (a b c d : R) :
+  gimbal_eps < Rabs (2 * atan2 (hypot c d) (hypot a b)) -> gimbal_eps < Rabs (2 * atan2 (hypot c d) (hypot a b) - PI) ->
+  0 < a * a + b * b /\ 0 < c * c + d * d.
+Proof.
+  intros H1 H2. pose proof gimbal_eps_pos as He.
+  assert (Z : forall u v, ~ 0 < u * u + v * v -> hypot u v = 0).
+  { intros u v Hn. assert (u * u + v * v = 0) by nra. unfold hypot. rewrite H. apply sqrt_0. }
+  assert (Hx : 0 <= hypot a b) by apply sqrt_pos.
+  assert (Hy : 0 <= hypot c d) by apply sqrt_pos.
+  assert (Hhalf : hypot a b = 0 -> 2 * atan2 (hypot c d) (hypot a b) = PI).
+  { intros E. rewrite E. unfold atan2. destruct (Rlt_dec (hypot c d) 0); [lra|]. unfold Rdiv. rewrite Rmult_0_l, acos_0. field. }
+  split.
+  - destruct (Rlt_dec 0 (a * a + b * b)) as [|Hn]; [assumption|exfalso].
+    rewrite (Hhalf (Z a b Hn)) in H2. replace (PI - PI) with 0 in H2 by ring. rewrite Rabs_R0 in H2. lra.
+  - destruct (Rlt_dec 0 (c * c + d * d)) as [|Hn]; [assumption|exfalso].
+    destruct (Req_dec (hypot a b) 0) as [E|E].
+    + rewrite (Hhalf E) in H2. replace (PI - PI) with 0 in H2 by ring. rewrite Rabs_R0 in H2. lra.
+    + rewrite (Z c d Hn) in H1. unfold atan2 in H1. destruct (Rlt_dec 0 0); [lra|].
+      replace (hypot a b * hypot a b + 0 * 0) with (Rsqr (hypot a b)) in H1 by (unfold Rsqr; ring).
+      rewrite sqrt_Rsqr in H1 by assumption. replace (hypot a b / hypot a b) with 1 in H1 by (field; assumption).
+      rewrite acos_1, Rmult_0_r, Rabs_R0 in H1. lra.
+Qed.
+
+Theorem as_euler_regular (quat : quatR) (seq : nat * nat * nat) (extrinsic : bool) :
+  valid_seq seq -> qnorm2 RRing quat = 1 -> euler_regular quat seq extrinsic ->
+  let '(e0, e1, e2) := quaternion_to_euler quat seq extrinsic in let '(s0, s1, s2) := seq in
+  qmat RRing (from_euler (negb extrinsic) [s0; s1; s2] [e0; e1; e2]) = qmat RRing quat.
+Proof.
+  destruct seq as [[s0 s1] s2]. intros (H0 & H1 & H2 & H01 & H12) Hn. unfold euler_regular, quaternion_to_euler.
+  destruct extrinsic; cbv iota.
+  - pose proof (ext_core quat s0 s1 s2 H0 H1 H2 H01 H12 Hn) as C. unfold abcd_regular, euler_core in C.
+    destruct (euler_abcd quat s0 s1 s2) as [[sym sign] [[[a b] c] d]]. intros [R1 R2].
+    specialize (C (regular_nonzero a b c d R1 R2)). cbv zeta.
+    destruct (Rle_dec (Rabs (2 * atan2 (hypot c d) (hypot a b))) gimbal_eps); [lra|].
+    destruct (Rle_dec (Rabs (2 * atan2 (hypot c d) (hypot a b) - PI)) gimbal_eps); [lra|].
+    cbn [negb andb]. rewrite from_euler_wrap. now rewrite C.
+  - pose proof (ext_core quat s2 s1 s0 H2 H1 H0 (not_eq_sym H12) (not_eq_sym H01) Hn) as C. unfold abcd_regular, euler_core in C.
+    destruct (euler_abcd quat s2 s1 s0) as [[sym sign] [[[a b] c] d]]. intros [R1 R2].
+    specialize (C (regular_nonzero a b c d R1 R2)). cbv zeta.
+    destruct (Rle_dec (Rabs (2 * atan2 (hypot c d) (hypot a b))) gimbal_eps); [lra|].
+    destruct (Rle_dec (Rabs (2 * atan2 (hypot c d) (hypot a b) - PI)) gimbal_eps); [lra|].
+    cbn [negb andb]. rewrite from_euler_wrap, from_euler_intrinsic_reverse. now rewrite C.
+Qed.
+
+(* ---- Rodrigues formula (_axisangle_to_matrix) = matrix of the half-angle quaternion ---- *)
+Lemma rodrigues_half_angle (u : vecR) (t : R) : dot3 RRing u u = 1 ->
+  rodrigues RRing u (cos t) (sin t) = qmat RRing (polar u (t / 2)).
+Proof.
+  intros Hu.
+  assert (Hc : cos t = cos (t / 2) * cos (t / 2) - sin (t / 2) * sin (t / 2)) by (replace t with (2 * (t / 2)) at 1 by field; apply cos_2a).
+  assert (Hs : sin t = 2 * sin (t / 2) * cos (t / 2)) by (replace t with (2 * (t / 2)) at 1 by field; apply sin_2a).
+  pose proof (sin2_cos2 (t / 2)) as H1. unfold Rsqr in H1. rewrite Hc, Hs. unfold polar.
+  generalize (cos (t / 2)) (sin (t / 2)) H1. clear Hc Hs H1. intros c s H1. dvec u. unfold rodrigues, polar. unf. toRR.
+  assert (E1 : 1 - (c * c - s * s) = 2 * (s * s)) by nra.
+  rewrite E1.
+  assert (Es : s * s * (k * k + k0 * k0 + k1 * k1) = s * s) by (rewrite Hu; ring).
+  pair_split; nra.
 Qed.
